@@ -37,7 +37,9 @@ Inductive fact :=
 | FAddr (q : string) (r : option string)                          (* MatchingUUID(q) *)
 | FBV (repo name : string) (r : option (list string))             (* branch-versions *)
 | FU2V (uu : string) (r : option N)                               (* datastore.VersionFromUUID *)
-| FV2U (v : N) (r : option string).                               (* datastore.UUIDFromVersion *)
+| FV2U (v : N) (r : option string)                                (* datastore.UUIDFromVersion *)
+| FRepos (uu : string) (root : option string)                     (* datastore.GetRepoRoot: m.repos itself *)
+| FLocked (uu : string) (r : option bool).                        (* datastore.LockedUUID, exact uuid *)
 
 Inductive delta := DSet (f : fact) | DDel (f : fact).   (* DDel: only the key fields are read *)
 
@@ -50,6 +52,8 @@ Definition same_key (a b : fact) : bool :=
   | FBV r n _, FBV r' n' _ => String.eqb r r' && String.eqb n n'
   | FU2V x _, FU2V x' _ => String.eqb x x'
   | FV2U v _, FV2U v' _ => N.eqb v v'
+  | FRepos x _, FRepos x' _ => String.eqb x x'
+  | FLocked x _, FLocked x' _ => String.eqb x x'
   | _, _ => false
   end.
 
@@ -125,6 +129,12 @@ Definition fact_ok (s : state) (f : fact) : bool :=
     end
   | FU2V x r => opt_eqb N.eqb (st_u2v s !! x) r
   | FV2U v r => opt_eqb String.eqb (st_v2u s !! v) r
+  | FRepos x root => opt_eqb String.eqb (option_map r_root (repo_by_uuid s x)) root
+  | FLocked x r =>
+    match outcome_opt (locked_uuid s x) with
+    | Some m => opt_eqb Bool.eqb m r
+    | None => false
+    end
   end.
 
 Definition count_nodes_of (key : string) (fs : list fact) : nat :=
@@ -210,7 +220,8 @@ Definition acyclic_b (fs : list fact) : bool :=
 
 (* 4: a UUID and a version id name one node; no empty UUID; a UUID resolves to the repo that holds it
       (or is refused because it is a proper prefix of another UUID: prefix matching is ambiguous);
-      uuidToVersion and versionToUUID hold exactly the (UUID, version id) pairs of the nodes *)
+      uuidToVersion, versionToUUID and m.repos hold exactly the identifiers of the nodes; a UUID of a
+      deleted repo names nothing any more, by whatever route it is looked up *)
 Definition ids_unique_b (fs : list fact) : bool :=
   let ns := onodes fs in
   nodup_by String.eqb (List.map on_uuid ns) && nodup_by N.eqb (List.map on_v ns) &&
@@ -227,6 +238,14 @@ Definition ids_unique_b (fs : list fact) : bool :=
       end
     | FU2V x (Some v) => existsb (fun n => String.eqb (on_uuid n) x && N.eqb (on_v n) v) ns
     | FV2U v (Some x) => existsb (fun n => String.eqb (on_uuid n) x && N.eqb (on_v n) v) ns
+    | FRepos x (Some k) => existsb (fun n => String.eqb (on_uuid n) x && String.eqb (on_repo n) k) ns
+    | FRepos x None => negb (existsb (fun n => String.eqb (on_uuid n) x) ns)
+    | FLocked x (Some b) => existsb (fun n => String.eqb (on_uuid n) x && Bool.eqb (on_locked n) b) ns
+    | FLocked x None => negb (existsb (fun n => String.eqb (on_uuid n) x) ns)
+    | FAddr q (Some y) =>
+      (* a plain (prefix) reference resolves to an existing node whose UUID it prefixes *)
+      if existsb (fun c => Ascii.eqb c ":") (list_ascii_of_string q) then true
+      else String.prefix q y && existsb (fun n => String.eqb (on_uuid n) y) ns
     | FU2V x None => negb (existsb (fun n => String.eqb (on_uuid n) x) ns)
     | FV2U v None => negb (existsb (fun n => N.eqb (on_v n) v) ns)
     | _ => true end) fs.
